@@ -52,12 +52,12 @@ PROPS["C03"] = dict(engines=["abuffer", "arate", "atwindow", "apartition", "aemi
          "with consumers completed jointly by the driver are validated against it.",
     note="Trusted: TLC; virtual-time loop for same-loop operation; real threads with event-gated scripts for threaded operation "
          "(no wall-clock assertion can fail on a correct tree: waits are bounded below by events, above by generous time-outs).")
-PROPS["C04"] = dict(engines=["sync", "abuffer", "alatest", "arate", "atwindow", "apartition", "aemit", "amapasync", "acomposite"], design="5/C04",
+PROPS["C04"] = dict(engines=["sync", "abuffer", "alatest", "arate", "atwindow", "apartition", "aemit", "amapasync", "acomposite", "adask"], design="5/C04",
     technique="TLA+ specs carrying reference counts with the data (CbSafe invariant) checked by TLC + trace validation of instrumented RefCounters",
     text="Every module carries rc/fired next to the data; CbSafe (callback scheduled => element not stored, sleeping, or at an unfinished consumer) "
          "is checked by TLC on the design and evaluated on every recorded trace of the real nodes; known deviations are listed in known_findings.json.",
     note="Trusted: TLC; RefCounter subclass whose loop is the event log (the real retain/release code runs).")
-PROPS["C05"] = dict(engines=["sync", "abuffer", "alatest", "arate", "atwindow", "apartition", "aemit", "amapasync", "acomposite"], design="5/C05",
+PROPS["C05"] = dict(engines=["sync", "abuffer", "alatest", "arate", "atwindow", "apartition", "aemit", "amapasync", "acomposite", "adask"], design="5/C05",
     technique="TLA+ specs with holder-based balance invariants (RcBalanced/RcBalance/CbExact/NoResurrection) checked by TLC + trace validation of counter values",
     text="Counts are compared with the holder multiset derived from the list-level contracts (SyncFlow) or from the stored data (async modules) in every "
          "state; the counter values of real runs are logged after every operation and compared with the specification's.",
